@@ -1180,7 +1180,7 @@ func main() {
 	}
 
 	r := gen.NewRand(f.Seed)
-	nScen := f.N(6, 24)
+	nScen := f.N(6, 18)
 	perScen := f.N(4, 0) // thorough: every mutation point, fail and kill
 	scs := genScenarios(p, r, nScen)
 	// baselines
